@@ -38,11 +38,20 @@ class Run(object):
         self.blocks = []
 
 
-def run(F, args, mem_init=None, max_steps=200000):
-    """args: list of values per parameter.  mem_init(tag, off, size) -> int | None for loads from caller objects."""
+def run(F, args, mem_init=None, max_steps=200000, enter=None, extern=None, keep=None, _shared=None, _depth=0):
+    """args: list of values per parameter.  mem_init(tag, off, size) -> int | None for loads from caller objects.
+    enter(callee name) -> Function to interpret in place (same memory, same event list) or None;
+    extern(callee name, argument values) -> modelled return value of a call that is not entered (or None);
+    keep(callee name) -> True when the call is taken not to write any scalar the interpreter tracks."""
     env = {}
-    mem = {}
-    res = Run()
+    if _shared is None:
+        mem = {}
+        res = Run()
+    else:
+        mem, res0 = _shared
+        res = Run()
+        res.events = res0.events
+        res.steps = res0.steps
 
     def val(v):
         if isinstance(v, dict):
@@ -222,15 +231,31 @@ def run(F, args, mem_init=None, max_steps=200000):
                         r = o[0]
                     else:
                         n = I.raw.get("nargs", len(o))
+                        G = enter(cal) if enter is not None else None
+                        if G is not None and _depth < 6:
+                            sub = run(G, o[:n], mem_init, max_steps, enter, extern, keep, (mem, res), _depth + 1)
+                            res.steps = sub.steps
+                            r = sub.ret
+                            env[I.id] = r
+                            continue
                         res.events.append(("call", cal, o[:n], I))
+                        if extern is not None:
+                            r = extern(cal, o[:n])
                         # a callee may write through pointers it is given
-                        for x in o[:n]:
-                            if isinstance(x, tuple):
-                                for k in list(mem):
-                                    if k[0] == x[1]:
-                                        if cal.startswith(("llvm.memcpy", "llvm.memset", "llvm.memmove", "memcpy", "memset", "memmove")) and x is not o[0]:
-                                            continue
-                                        del mem[k]
+                        copyish = re.match(r"^(llvm\.mem(cpy|set|move)|mem(cpy|set|move|clr)\w*|__mem\w+_chk)", cal) is not None
+                        if keep is not None and keep(cal):
+                            pass
+                        elif copyish and o and isinstance(o[0], tuple):
+                            nb = o[2] if len(o) > 2 and isinstance(o[2], int) else None
+                            for k in list(mem):
+                                if k[0] == o[0][1] and (nb is None or (k[1] < o[0][2] + nb and o[0][2] < k[1] + k[2])):
+                                    del mem[k]
+                        else:
+                            for x in o[:n]:
+                                if isinstance(x, tuple):
+                                    for k in list(mem):
+                                        if k[0] == x[1]:
+                                            del mem[k]
             elif op == "br":
                 if I.raw.get("cond"):
                     c = o[0]
